@@ -52,35 +52,35 @@ type rstmt struct {
 	tag  string
 	args []rexpr
 	// cloop
-	v        string
+	v         string
 	init, lim int64
-	op       string
-	inc      bool
-	limPath  string // "" or a jso path holding lim
+	op        string
+	inc       bool
+	limPath   string // "" or a jso path holding lim
 	// rloop
 	k, val string
 	arr    string
 	elems  []int64
 	// if
-	l, r     rexpr
-	litLeft  bool
+	l, r      rexpr
+	litLeft   bool
 	then, els []rstmt
-	hasElse  bool
+	hasElse   bool
 	// switch
-	subj    rexpr
-	cases   []rcase
-	defAt   int // -1: none
-	def     []rstmt
+	subj  rexpr
+	cases []rcase
+	defAt int // -1: none
+	def   []rstmt
 	// signals
-	n int
+	n    int
 	body []rstmt
 }
 
 type rcase struct {
-	val  rval   // classic
-	l, r rexpr  // condition-less
-	op   string
-	body []rstmt
+	val   rval  // classic
+	l, r  rexpr // condition-less
+	op    string
+	body  []rstmt
 	quote string
 }
 
@@ -201,10 +201,10 @@ func mirrorOp(op string) string {
 // ---------------------------------------------------------------- reference semantics
 
 type renv struct {
-	ints   map[string]int64  // counter variables
-	keys   map[string]int    // range keys
-	vals   map[string]int64  // range values (int elements)
-	trace  []string
+	ints  map[string]int64 // counter variables
+	keys  map[string]int   // range keys
+	vals  map[string]int64 // range values (int elements)
+	trace []string
 }
 
 type rsignal struct {
@@ -439,19 +439,19 @@ func refTrace(ss []rstmt) []string {
 // ---------------------------------------------------------------- generator
 
 type rgen struct {
-	r      *prng
-	doc    *JV
-	ints   map[string]int64
-	strs   map[string]string
-	bools  map[string]bool
-	arrs   map[string][]int64
-	nextID int
-	loops  []string // kinds of enclosing loops, innermost last
-	cvars  []string // counter variables in scope
-	keys   []string
-	vals   []string
-	opts   rgenOpts
-	stats  map[string]int
+	r        *prng
+	doc      *JV
+	ints     map[string]int64
+	strs     map[string]string
+	bools    map[string]bool
+	arrs     map[string][]int64
+	nextID   int
+	loops    []string // kinds of enclosing loops, innermost last
+	cvars    []string // counter variables in scope
+	keys     []string
+	vals     []string
+	opts     rgenOpts
+	stats    map[string]int
 	deepUsed bool
 	nsignals int
 }
